@@ -9,8 +9,8 @@ import RedisGoModel.Props.C19ConcLin
       log the full statement is FALSE — `cross_channel_order_not_linearizable`, a kernel-checked run of the model (two Sends on
       two channels, two common subscribers, each Send writing to its subscribers one by one) — and the Go code behaves like the
       model there (`Send` holds only its own channel's lock while it writes);
-  (b) "each completed operation has EXACTLY one entry in `lin`" is proved as "at least one, inside its interval"; that no second
-      entry carries the same tag is true by construction (`lpd`) but not stated as a theorem.
+  (b) "each completed operation has EXACTLY one entry in `lin`": here "at least one, inside its interval"; that the tags of `lin`
+      are pairwise different and belong to real operations is `each_operation_linearized_once` in `Props/C19ConcUniq.lean`.
 * connection death is an environment step that only enables write failures; a prune is linearized as the specification's
   `unsubscribe` of that connection from that channel at the prune step. -/
 set_option linter.unusedSimpArgs false
